@@ -36,8 +36,9 @@ def run(chk):
     # length, and an occupied slot is released before it is overwritten (shared with C07)
     ma = prog.module("arraylist.c")
     chk.require(ma is not None, "arraylist.c not in the build")
-    c07.r_expand(chk, prog, ma)
-    c07.r_functions(chk, prog, ma)
+    with chk.shared():
+        c07.r_expand(chk, prog, ma)
+        c07.r_functions(chk, prog, ma)
     own.rule_leaks(chk, prog, "C05.R6", acquirers=own.NODE_ACQUIRERS, floor=25,
                    text="no orphaned node: a node reference held by a local of a library function (a constructor's result, a "
                         "reference taken with json_object_get, the slot a copy was built into) is released, returned or handed to a "
@@ -52,8 +53,9 @@ def run(chk):
 
 def r1(chk, prog, m):
     # shared structural rules, registered under this property's ids by their own modules' rule names
-    c06.r2(chk, prog)
-    c06.r3_delete(chk, prog, prog.module("linkhash.c"))
+    with chk.shared():
+        c06.r2(chk, prog)
+        c06.r3_delete(chk, prog, prog.module("linkhash.c"))
     chk.rule("C05.R1", "the release functions the containers are created with drop exactly one reference of the child (and free the "
                        "copied key unless it is constant); container destruction walks every live entry once")
     f = m.functions.get("json_object_lh_entry_free")
